@@ -154,10 +154,9 @@ func wrapCases(ops []*ssa.BinOp) []*wrapCase {
 
 // EntailsWrapAware: at instruction `at`, under the extra assumptions, every goal(case) <= 0 holds in every
 // feasible wrap case. goalFn builds the goals from the case-specific evaluator. Returns (ok, description of a failing case).
-func (fa *FA) EntailsWrapAware(at ssa.Instruction, values []ssa.Value, assume func(ev func(ssa.Value) *Lin) []Fact, goals func(ev func(ssa.Value) *Lin) []*Lin) (bool, string, int) {
+func (fa *FA) EntailsWrapAware(conds []Cond, values []ssa.Value, assume func(ev func(ssa.Value) *Lin) []Fact, goals func(ev func(ssa.Value) *Lin) []*Lin) (bool, string, int) {
 	var ops []*ssa.BinOp
 	seen := map[ssa.Value]bool{}
-	conds := condsAtInstr(at)
 	for _, cd := range conds {
 		if b, ok := normCond(cd).V.(*ssa.BinOp); ok {
 			fa.wrapOps(b.X, seen, &ops)
